@@ -37,7 +37,20 @@ def run_basic(prop, tier, seed, gen_kwargs=None):
     want = None
     if prop in ("C04", "C05"):
         want = lambda g, cfg: all(cfg.all_productive(s) for s in g.starts())
-    genf = (lambda r: gen.gen_loc(r, **gk)) if prop == "C06" else (lambda r: gen.gen_core(r, **gk))
+    if prop == "C06":
+        genf = lambda r: gen.gen_loc(r, **gk)
+    elif prop in ("C01", "C04", "C05"):
+        # a third of the grammars stress the lane-table construction (LR(1), mostly not LALR(1))
+        from .. import gen3
+        def genf(r):
+            k = r.random()
+            if k < 0.3:
+                return gen3.gen_lane_stress(r)
+            if k < 0.5:
+                return gen3.gen_prefix_overlap(r)
+            return gen.gen_core(r, **gk)
+    else:
+        genf = lambda r: gen.gen_core(r, **gk)
     subj, cases = pipeline.make_cases(chk, rng, n_gram, genf, ALL_TAGS, want=want)
     irng = chk.rng("inputs")
     execs = []
